@@ -383,6 +383,7 @@ class C05Replies(Base, QueueWatch):
         if kind == "restart":
             self.sleeping.clear()
             self.desired.clear()
+            self.metric = True          # gateway.metric is an attribute of the (new) gateway object: back to its default
         for s in sends:
             self.emitted(owner, s, None, op)
         for nid, s in held:
